@@ -39,7 +39,7 @@ def sizeMax : Nat := 18446744073709551615
 def maxSectionNameSize : Nat := 35
 
 inductive Err
-  | invalidArgument | invalidSectionName | invalidSection | tooLarge | invalidRelocEntry | relocOffsetOutOfRange
+  | invalidArgument | invalidSectionName | invalidSection | tooLarge | invalidRelocEntry | relocOffsetOutOfRange | noCodeGenerated
 deriving DecidableEq, Repr
 
 def Err.name : Err → String
@@ -49,6 +49,7 @@ def Err.name : Err → String
   | .tooLarge => "TooLarge"
   | .invalidRelocEntry => "InvalidRelocEntry"
   | .relocOffsetOutOfRange => "RelocOffsetOutOfRange"
+  | .noCodeGenerated => "NoCodeGenerated"
 
 structure Section where
   id : Nat
@@ -330,7 +331,8 @@ def copyFlattenedSecs (secs : List Section) (dst : List Byte) (flags : CopyFlags
 def copyFlattened (h : Holder) (dst : List Byte) (flags : CopyFlags) : CopyResult :=
   copyFlattenedSecs h.secs dst flags
 
-/-- the copy loop of `JitRuntime::_add` into a span of `dst.length` bytes (the two `ASMJIT_ASSERT`s are the faults) -/
+/-- the copy loop of `JitRuntime::_add` into a span of `dst.length` bytes over a list of sections
+    (the two `ASMJIT_ASSERT`s are the faults) -/
 def jitCopy : List Section → List Byte → Option (List Byte)
   | [], dst => some dst
   | s :: rest, dst =>
@@ -342,6 +344,9 @@ def jitCopy : List Section → List Byte → Option (List Byte)
         | none => none
         | some d2 => jitCopy rest d2
       else jitCopy rest d1
+
+/-- `code->_sections`: the sections in id order (the loop of `_add` walks this vector, not the by-order one) -/
+def byId (secs : List Section) : List Section := (List.range secs.length).filterMap (findSec secs)
 
 /-! ### relocate_to_base (address-table part) -/
 
@@ -433,6 +438,28 @@ def relocate (h : Holder) (base : Nat) : Holder × Except Err Unit × Nat :=
           let secs := modifySec h1.secs id (fun s => { s with data := (st.table ++ zeros size).take size, vsize := size })
           ({ h1 with secs := secs }, .ok (), (reserved + U64 - size) % U64)
       else (h1, .ok (), 0)
+
+/-- `JitRuntime::_add` (REPAIRED, fixes/C10-4.patch): flatten; (`resolve_cross_section_fixups`: nothing to do in this model);
+    estimate = `code_size()`; allocate a span of that size at address `base`; `relocate_to_base(base)`;
+    final size = estimate - `code_size_reduction`; refuse an empty result; copy every section (in id order) into the span;
+    shrink the span to the final size.  Result: the installed bytes.  `fault` cannot be expressed by `Err`: `none`. -/
+def jitAdd (h : Holder) (base : Nat) : Holder × Option (Except Err (List Byte)) :=
+  let (h1, r) := flatten h
+  match r with
+  | .error e => (h1, some (.error e))
+  | .ok () =>
+    let est := codeSize h1
+    if est = 0 then (h1, some (.error .noCodeGenerated))
+    else
+      let (h2, r2, red) := relocate h1 base
+      match r2 with
+      | .error e => (h2, some (.error e))
+      | .ok () =>
+        let size := est - red
+        if size = 0 then (h2, some (.error .noCodeGenerated))
+        else match jitCopy (byId h2.secs) (zeros est) with
+          | none => (h2, none)
+          | some img => (h2, some (.ok (img.take size)))
 
 /-! ### histories -/
 
